@@ -25,7 +25,7 @@ BAG = {
     "stallseq": '<<"join","join","reg","sub","call","stall","pub","pub","ckill","call","msess","adv","resume","yield","pub","cancel","adv","leave">>',
     # a caller stops reading, its callee yields (held back in the retry loop), ...
     "retryseq": '<<"join","join","reg","call","stallc","yield","yield","yield","pub","msess","adv","resume","call","yield","leave">>',
-    "pci": '<<"join","join","reg","reg","pcall","pcall","pcall","pcall","yield","yield","inverr","cancel","call","leave","adv">>',
+    "pci": '<<"join","join","reg","reg","unreg","pcall","pcall","pcall","pcall","yield","yield","inverr","cancel","call","leave","adv">>',
     "killx": '<<"join","join","sub","wsub","tst","tst","kill","kill","kill","leave","msess","pub">>',
     "stallburst": '<<"join","join","sub","sub","sub","stall","bpub","bpub","bpub","resume","pub","leave">>',
     "burst": '<<"join","join","sub","sub","sub","reg","pub","bpub","bpub","bpub","leave","bmix">>',
